@@ -179,3 +179,59 @@ def send_deadline(vc):
         vc.check('late/timed-out-or-rearmed', (len(comps) == 1 and issubclass(exc_class(comps[0][1]), OperationTimedOut)) or len(ts) == 1)
     else:
         vc.check('intime/next-host-tried', [e[1] for e in world.sends()] == [h2])
+
+
+@harness('C15', 'borrow_connection-wait', functions=['cassandra.pool.HostConnection.borrow_connection'], native='contracts.native.c15:replay')
+def borrow_wait(vc):
+    """the wait for a free stream id inside ResponseFuture._query (borrow_connection(timeout)) on a connection whose ids are all in use and stay in use - the
+    worst case for boundedness - cut at its loop with the invariant `readings of the clock never go back`: ensures every wait it performs is for a finite,
+    non-negative time that ends no later than start + timeout (so no wait is entered after the deadline), and it gives up with NoConnectionsAvailable only at a
+    clock reading past the deadline; ghost clock: advances by an arbitrary amount at each reading and by at most t during wait(t)"""
+    import time
+    from contracts import pool_common as P
+    from cassandra.pool import NoConnectionsAvailable
+    HC = P.HC
+    w = P.World(vc)
+    c = P.Conn(w, 'full')
+    c.max_request_id = 100
+    c.in_flight = 100
+    pool, lock = P.host_connection(vc, w, c)
+    T = vc.real('timeout')
+    vc.assume(T >= 0)
+    clock = {'now': vc.real('clock_at_entry'), 'readings': 0, 'start': None}
+    waits = []
+
+    def now():
+        d = vc.ctx.fresh_real('elapsed', register=False)
+        vc.ctx.assume((d >= 0).t, silent=True)
+        clock['now'] = clock['now'] + d
+        clock['readings'] += 1
+        if clock['start'] is None:
+            clock['start'] = clock['now']
+        return clock['now']
+    vc.stub(time.time, now)
+
+    class Cond(P.Cond):
+        def wait(self_, t=None):
+            waits.append(t)
+            vc.check('wait/finite-and-non-negative', t is not None and t >= 0)
+            if t is not None:
+                vc.check('wait/ends-by-the-deadline', clock['now'] + t <= clock['start'] + T)
+                d = vc.ctx.fresh_real('waited', register=False)
+                vc.ctx.assume(sym.and_(d >= 0, d <= t).t, silent=True)
+                clock['now'] = clock['now'] + d
+    pool.attrs['_stream_available_condition'] = Cond(lock)
+
+    def inv(L):
+        return [('clock-monotone', clock['now'] >= clock['start'])]
+
+    def heap(ctx):
+        # an arbitrary later moment of the same wait: the clock has moved on by an unknown amount
+        d = ctx.fresh_real('loop_elapsed', register=False)
+        ctx.assume((d >= 0).t, silent=True)
+        clock['now'] = clock['start'] + d
+    vc.loop(HC + 'borrow_connection', 0, invariant=inv, havoc={'conn': lambda ctx: c, 'remaining': lambda ctx: ctx.fresh_real('h_remaining', register=False), '__clock': heap})
+    kind, r = vc.call_catch(HC + 'borrow_connection', pool, T)
+    vc.check('gives-up/with-NoConnectionsAvailable', kind == 'exc' and issubclass(exc_class(r), NoConnectionsAvailable))
+    vc.check('gives-up/only-past-the-deadline', clock['now'] > clock['start'] + T)
+    vc.check('gives-up/stream-count-untouched', c.in_flight == 100)
